@@ -44,7 +44,7 @@ InsertResults(s, ovr, id, p, after, before) ==
      ELSE IF Has(s, id) THEN {[s EXCEPT ![IdxOf(s, id)] = r]}
      ELSE IF ovr
           THEN IF Len(s) >= 1 /\ s[1].id = Master THEN {InsAt(s, 2, r)}
-               ELSE {InsAt(s, 1, r), InsAt(s, IF Len(s) >= 1 THEN 2 ELSE 1, r)}   \* documentation silent without master
+               ELSE {InsAt(s, 1, r)}     \* no master rule in front: "the rule with the highest priority of its kind"
           ELSE {InsAt(s, 1, r)}
 
 \* A rule anchored on itself is not covered by the documentation: either an error (nothing changes), or
